@@ -27,12 +27,12 @@ Theorem run_complete_plain cfg st0 ops st tr :
     nget (r_datalog st) i = Some d /\ d_filter d = f /\
     In (id, rq) (d_waiters d) /\ dr_filter rq = f /\ dr_idx rq = i /\ dr_group rq = None /\
     snd (dr_cursor rq) = end_of (d_log d) /\
-    (exists a l, ktrace (o_link o, f, i) tr = a :: l /\ (a = KRes \/ exists e, a = KSub e)) /\
-    forall l1 e l2, ktrace (o_link o, f, i) tr = l1 ++ KSub e :: l2 ->
-      forall x, e <= x < end_of (d_log d) -> covered x l2.
+    (exists a l, ktrace (o_link o, f, i) tr = a :: l /\ ((exists cl c0, a = KRes cl c0) \/ exists e, a = KSub e)) /\
+    forall l1 a l2, ktrace (o_link o, f, i) tr = l1 ++ a :: l2 ->
+      forall x, nxt a <= x < end_of (d_log d) -> covered x l2.
 Proof.
   intros Hcfg Hlt Hi Hwf Hr HB Hmo Hq id c o Hc Ho f Hf Hplain.
-  destruct (c01_run_complete_thm cfg st0 ops st tr Hcfg Hlt Hi Hwf Hr HB Hmo Hq id c o Hc Ho f Hf)
+  destruct (c01_run_complete_gen_thm cfg st0 ops st tr Hcfg Hlt Hi Hwf Hr HB Hmo Hq id c o Hc Ho f Hf)
     as (i & d & rq & Hd & Hin & Hfl & Hidx & Hrest).
   assert (Hh : Held st id rq) by (right; left; exists i, d; auto).
   pose proof (run_request_shape cfg st0 ops st tr Hi Hr id rq Hh) as Hs. unfold shp in Hs.
